@@ -10,6 +10,7 @@ SMALL = ['-include', '/verif/harness/C05/prelude_small.h']
 CMT = ['-include', '/verif/harness/C05/prelude_comment.h']
 NBQ = {0: 3, 1: 3, 6: 3, 7: 3, 8: 3, 9: 3, 10: 3}   # scanners that call SDAI_String::STEPread / recurse: measured to need the smaller bound
 HEAVY = set(NBQ)
+NBC = {6: 5, 7: 5, 9: 5}   # byte bounds of the scanners that run over the GetLiteralStr contract (measured)
 HARNESSES = [
   H('readreal_len', 'irc', 'harness/C05/h_readreal_len.c', tiers=('thorough',), timeout={'thorough': 1800}, defs={'MAXLEN': 70, 'SHORT_TAIL': 1, 'VSTR_CAP': 74, 'VSTREAM_CAP': 74, 'VOSTREAM_CAP': 8}, unwind=76,
     bounds='ReadReal: tokens digits.digits[Edigits], of total length <= 70, integer part of 1..66 digits (length symbolic), <= 2 fraction digits, optional E + <= 2 digits (content concretised)',
@@ -21,6 +22,21 @@ HARNESSES = [
     bounds='%s with BUFSIZ shrunk to 15: every word of <= 18 bytes over {a B _ . / 1}' % ['StrToUpper', 'StrToLower', 'StrToConstant', 'PrettyTmpName'][w],
     samples=[{'word': 'aB_1'}, {'word': 'a.B/a'}, {'word': 'aaaaaaaaaaaaaaaaa'}, {'word': 'aaaaaaaaaaaaaa_a'}],
     out_of_claim='the real BUFSIZ (8192): same code, larger constant', **COMMON) for w in range(4)
+] + [
+  # scanners built on SDAI_String::STEPread (-> GetLiteralStr): run over the proven string-free contract of GetLiteralStr (assume-guarantee, lemma: C10 gls_equiv)
+  H('scan_%02d' % w, 'irc', 'harness/C05/h_scan.c', irc_src_flags={'src/clutils/Str.cc': ['-DGetLiteralStr=GetLiteralStr__real']},
+    defs={'quick': {'WHICH': w, 'NB': NBC[w], 'GLS_CONTRACT': 1, 'VSTR_CAP': 8, 'VSTREAM_CAP': 8, 'VOSTREAM_CAP': 8}, 'thorough': {'WHICH': w, 'NB': NBC[w] + 1, 'GLS_CONTRACT': 1, 'VSTR_CAP': 10, 'VSTREAM_CAP': 10, 'VOSTREAM_CAP': 8}},
+    unwind={'quick': NBC[w] + 7, 'thorough': NBC[w] + 8}, cflags=CMT, native_cflags=CMT, object_bits=10, timeout={'quick': 600, 'thorough': 3600},
+    bounds='%s on every byte string of <= %d (%d) bytes over the Part 21 punctuation alphabet + letter/digit/blank/newline representatives, ending anywhere (premature EOF)' % (SCAN[w], NBC[w], NBC[w] + 1),
+    samples=[{'bytes': "'a;'"}, {'bytes': "a';"}, {'bytes': "(()"}, {'bytes': "#1=a;"}, {'bytes': "a;"}, {'bytes': "('a')"}],
+    out_of_claim='inputs longer than the bound; whole-file reads; the text collected while skipping', **dict(COMMON, stubs=COMMON['stubs'] + ['GetLiteralStr: replaced by GetLiteralStr_contract (proven equivalent in stream effect and emptiness of the result by C10 gls_equiv)'])) for w in (6, 7, 9)   # 8, 10 (PushPastImbedAggr, SkipSimpleRecord: recursive): witness twin not finished in 600 s at 4 bytes even over the contract
+] + [
+  H('skip_instance', 'irc', 'harness/C05/h_skipinst.c', irc_src_flags={'src/clutils/Str.cc': ['-DGetLiteralStr=GetLiteralStr__real']},
+    defs={'quick': {'NB': 5, 'GLS_CONTRACT': 1, 'VSTR_CAP': 8, 'VSTREAM_CAP': 8, 'VOSTREAM_CAP': 8}, 'thorough': {'NB': 7, 'GLS_CONTRACT': 1, 'VSTR_CAP': 10, 'VSTREAM_CAP': 10, 'VOSTREAM_CAP': 8}},
+    unwind={'quick': 12, 'thorough': 14}, cflags=CMT, native_cflags=CMT, object_bits=10, timeout={'quick': 900, 'thorough': 3600},
+    bounds='SkipInstance on every byte string of <= 5 (7) bytes over {; quote backslash S a ( blank #}, ending anywhere; functional oracle (first semicolon outside string literals)',
+    samples=[{'bytes': "'a;'"}, {'bytes': "a';"}, {'bytes': "';';"}, {'bytes': "#1=a;"}, {'bytes': "a;b;"}, {'bytes': "'\\\\S\\\\';"}, {'bytes': "''';"}],
+    out_of_claim='comments inside a skipped record (SkipInstance does not recognise them), inputs longer than the bound, the text collected while skipping', **dict(COMMON, stubs=COMMON['stubs'] + ['GetLiteralStr: replaced by GetLiteralStr_contract (proven equivalent in stream effect and emptiness of the result by C10 gls_equiv)'])),
 ] + [
   H('scan_%02d' % w, 'irc', 'harness/C05/h_scan.c',
     defs={'quick': {'WHICH': w, 'NB': NBQ.get(w, 6), 'VSTR_CAP': 12 if w in HEAVY else 16, 'VSTREAM_CAP': 6 if w in HEAVY else 8, 'VOSTREAM_CAP': 8}, 'thorough': {'WHICH': w, 'NB': NBQ.get(w, 6) + 2, 'VSTR_CAP': 18, 'VSTREAM_CAP': 10, 'VOSTREAM_CAP': 8}},
